@@ -38,6 +38,8 @@ type vE2EScenario struct {
 	FaultRate float64 `json:"fault_rate"`
 	MaxFaults int     `json:"max_faults"`
 	Seed      int64   `json:"seed"`
+	// the remote node has also stored the local node's branch (as a side branch): its ancestor search must not offer those blocks
+	RemoteKnowsLocal bool `json:"remote_knows_local"`
 }
 
 type vE2EInput struct {
@@ -102,6 +104,16 @@ func newWorldE2E(sc vE2EScenario, rng *rand.Rand) (*vWorld, error) {
 	for _, b := range remote[1:] {
 		if err := remoteCS.VerifC17AddBlock(b); err != nil {
 			return nil, fmt.Errorf("building the remote chain: block %d: %v", b.GetHeader().GetBlockNo(), err)
+		}
+	}
+	if sc.RemoteKnowsLocal && sc.Lbest < sc.Rbest {
+		for _, b := range local[sc.Fork+1:] {
+			if err := remoteCS.VerifC17AddBlock(b); err != nil {
+				return nil, fmt.Errorf("giving the remote node the local branch: block %d: %v", b.GetHeader().GetBlockNo(), err)
+			}
+		}
+		if h, err := remoteCS.GetHashByNo(uint64(sc.Rbest)); err != nil || string(h) != string(remote[sc.Rbest].BlockHash()) {
+			return nil, fmt.Errorf("remote main chain changed by the side branch")
 		}
 	}
 	par := vParams{NPeers: sc.NPeers, ChunkSize: sc.ChunkSize, HashReq: sc.HashReq, MaxTasks: sc.MaxTasks, MaxPendingConn: sc.MaxPend, MaxFail: MaxPeerFailCount}
@@ -250,6 +262,7 @@ func (w *vWorld) finishRandom(rate float64, maxFaults int) {
 }
 
 func runE2E(sc vE2EScenario) (viol []vViolation, note string, err error) {
+	anchorsDiffer := ""
 	rng := rand.New(rand.NewSource(sc.Seed))
 	w, err := newWorldE2E(sc, rng)
 	if err != nil {
@@ -265,17 +278,17 @@ func runE2E(sc vE2EScenario) (viol []vViolation, note string, err error) {
 	no := sc.Lbest
 	for i := 0; i < 32; i++ {
 		if i >= len(hs) || string(hs[i]) != string(w.lc.mainHash(no)) {
-			w.violate("anchors-differ", "getAnchorsNew: anchor #%d is not the main chain block %d (best %d)", i, no, sc.Lbest)
+			anchorsDiffer = fmt.Sprintf("getAnchorsNew: anchor #%d is not the main chain block %d (best %d)", i, no, sc.Lbest)
 			break
 		}
 		if no == 0 {
 			if len(hs) != i+1 || last != 0 {
-				w.violate("anchors-differ", "getAnchorsNew: %d anchors, last %d; expected %d anchors ending at 0", len(hs), last, i+1)
+				anchorsDiffer = fmt.Sprintf("getAnchorsNew: %d anchors, last %d; expected %d anchors ending at 0", len(hs), last, i+1)
 			}
 			break
 		}
 		if i == 31 && (len(hs) != 32 || int(last) != no) {
-			w.violate("anchors-differ", "getAnchorsNew: %d anchors, last %d; expected 32 anchors ending at %d", len(hs), last, no)
+			anchorsDiffer = fmt.Sprintf("getAnchorsNew: %d anchors, last %d; expected 32 anchors ending at %d", len(hs), last, no)
 		}
 		if no < 16 {
 			no = 0
@@ -319,6 +332,9 @@ func runE2E(sc vE2EScenario) (viol []vViolation, note string, err error) {
 		w.sy.Reset(errVerifStop)
 	}
 	note = fmt.Sprintf("%s: sessions=%d notifications=%v fullscan=%v", sc.ID, w.accepted, w.notifs, w.sessFull)
+	if anchorsDiffer != "" {
+		note = "DIVERGENCE " + sc.ID + ": " + anchorsDiffer // the anchor layout is not part of the property
+	}
 	return w.viol, note, nil
 }
 
@@ -339,6 +355,8 @@ func TestVerifSyncerE2E(t *testing.T) {
 	schedTick = 2 * time.Millisecond
 	dfltTimeout = time.Hour
 	quietLogger()
+	ndiv := 0
+	defer func() { res.Extra["divergences"] = ndiv }()
 	for _, sc := range in.Scenarios {
 		viol, note, err := runE2E(sc)
 		if err != nil {
@@ -346,6 +364,9 @@ func TestVerifSyncerE2E(t *testing.T) {
 		}
 		res.Count(sc.ID)
 		res.Note("%s", note)
+		if strings.HasPrefix(note, "DIVERGENCE") {
+			ndiv++
+		}
 		for _, v := range viol {
 			res.Violate(v.sig, map[string]interface{}{"scenario": sc}, "%s\n(e2e scenario %+v)", v.text, sc)
 		}
